@@ -56,6 +56,7 @@ struct ReplayEngine : Engine
 		sp.engine = engine_for_prop(sp.prop)->name();
 		sp.cfg.erase("c01_sub");
 		sp.cfg.erase("c01_env");
+		sp.cfg.erase("c01_rounds");
 		return sp;
 	}
 
@@ -129,7 +130,29 @@ struct ReplayEngine : Engine
 		return "traces are equal when recorded (the difference is not reproducible)";
 	}
 
+	bool same_failure(std::string const& a, std::string const& b) const override
+	{ return a == b || (a.rfind("replay.", 0) == 0 && b.rfind("replay.", 0) == 0); } // which environment exposes it is incidental
+	bool gate_on_trace_hash() const override { return false; } // the violation is that traces differ
+
 	void run(Plan const& plan, Ctx& ctx) override
+	{
+		// a replay of a reported mismatch tries the battery of environments several times
+		int const rounds = int(std::max<int64_t>(1, plan.c("c01_rounds", 1)));
+		for (int r = 0; r < rounds && !ctx.violated; ++r)
+		{
+			Plan p = plan;
+			p.cfg["c01_env"] = plan.c("c01_env") + r * 7919;
+			run_once(p, ctx);
+		}
+		if (ctx.violated && !plan.cfg.count("c01_rounds"))
+		{
+			ctx.has_pinned = true;
+			ctx.pinned = plan;
+			ctx.pinned.cfg["c01_rounds"] = 8;
+		}
+	}
+
+	void run_once(Plan const& plan, Ctx& ctx)
 	{
 		Plan const sp = sub_plan(plan);
 		Rng env(uint64_t(plan.c("c01_env")) + 17);
@@ -223,6 +246,7 @@ struct ReplayEngine : Engine
 			c.prop = p.prop; c.engine = p.engine;
 			c.cfg["c01_sub"] = p.c("c01_sub"); c.cfg["c01_env"] = p.c("c01_env");
 			if (p.cfg.count("c01_children")) c.cfg["c01_children"] = p.c("c01_children");
+			if (p.cfg.count("c01_rounds")) c.cfg["c01_rounds"] = p.c("c01_rounds");
 			out.push_back(c);
 		}
 		return out;
